@@ -1265,7 +1265,7 @@ def extract_impl(path, header_lit, macro, args, handle, spec, stats, canary):
     return "\n".join(out) + "\n" + "\n".join(silent_out)
 
 
-def extract_free_fn(path, name, macro, args, clauses, loops, rewrites, stats, canary, trusted=False, byref=False, ret="r"):
+def extract_free_fn(path, name, macro, args, clauses, loops, rewrites, stats, canary, trusted=False, byref=False, ret="r", sigrewrites=()):
     text = get_text(path, macro, args)
     ms = [m for m in re.finditer(r"(?:pub(?:\([^)]*\))?\s+)?fn\s+%s\b" % re.escape(name), text)]
     if len(ms) != 1:
@@ -1277,6 +1277,7 @@ def extract_free_fn(path, name, macro, args, clauses, loops, rewrites, stats, ca
     spec.fn[name] = clauses
     spec.loops = {name: loops} if loops else {}
     spec.rewrites = [(name, a, b) for (a, b) in rewrites]
+    spec.sigrewrites = [(name, a, b) for (a, b) in sigrewrites]
     if trusted:
         spec.trusted.add(name)
     spec.byref = byref
@@ -1504,6 +1505,7 @@ def generate(template_path, variant, canary=False):
             clauses = []
             loops = {}
             rewrites = []
+            sigrewrites = []
             i += 1
             while i < n and lines[i].strip() != "@@end":
                 l = lines[i]
@@ -1516,6 +1518,13 @@ def generate(template_path, variant, canary=False):
                     rewrites.append((old.strip(), new.strip()))
                     i += 1
                     continue
+                if l.startswith("@@sigrewrite"):
+                    # declared signature rewrite of a free (task) function, R7: a shared handle taken
+                    # by value is checked by `&mut`, so that the post-state of its cell is expressible
+                    old, new = l.split("::", 1)[1].split("==>", 1)
+                    sigrewrites.append((old.strip(), new.strip()))
+                    i += 1
+                    continue
                 if l.strip():
                     clauses.append(l)
                 i += 1
@@ -1524,7 +1533,7 @@ def generate(template_path, variant, canary=False):
             if trusted:
                 stats["trusted_fns"] += 1
             out.append(extract_free_fn(path, name, kv.get("macro"), args, clauses, loops, rewrites, stats, canary, trusted,
-                                       byref="byref" in rest[2:], ret=kv.get("ret", "r")))
+                                       byref="byref" in rest[2:], ret=kv.get("ret", "r"), sigrewrites=sigrewrites))
             stats["sources"].append("fn %s::%s" % (path, name))
             continue
         raise ExtractError("%s:%d: unknown directive %s" % (template_path, i + 1, d))
